@@ -98,7 +98,7 @@ package client
 
 // virtFundsCovered(pb, vb, m): for every asset, the parent position that a virtual participant is mapped to holds at least that
 // participant's initial balance (for two participants mapped to the same position the later one counts, as in transformBalances).
-//@ pred virtFundsCovered(pb channel.Balances, vb channel.Balances, m []channel.Index) = forall a int :: {vb[a]} 0 <= a && a < len(vb) ==>
+//@ pred virtFundsCovered(pb channel.Balances, vb channel.Balances, m []channel.Index) = forall a int :: 0 <= a && a < len(vb) ==>
 //@   val(pb[a][m[1]]) >= val(vb[a][1]) && (m[0] != m[1] ==> val(pb[a][m[0]]) >= val(vb[a][0]))
 
 // Virtual channel: parent list and index maps of the right size, own parent known with the same assets/backends,
